@@ -952,6 +952,195 @@ theorem runFromSetup_reach (c : Cfg α) (s : St α) (a0 : EvalAns α) (eq : List
     Reach c tf (setupState c s a0 eq).hist s'.hist :=
   runSteps_reach c tf dtminS hmin steps _ s' dtmaxS m' hmax h
 
+/-! ### C01 stated on the recorded row: per-phase fractions and contents are those of the mass-balance call -/
+
+theorem zip3_getElem? {β γ δ : Type} : ∀ (l1 : List β) (l2 : List γ) (l3 : List δ) (i : Nat),
+    (zip3 l1 l2 l3)[i]? = (match l1[i]?, l2[i]?, l3[i]? with
+      | some x, some y, some z => some (x, y, z)
+      | _, _, _ => none)
+  | [], l2, l3, i => by simp [zip3]
+  | a :: as, [], l3, i => by cases i <;> simp [zip3]
+  | a :: as, b :: bs, [], i => by cases i <;> simp [zip3]
+  | a :: as, b :: bs, d :: ds, 0 => by simp [zip3]
+  | a :: as, b :: bs, d :: ds, i+1 => by simp [zip3, zip3_getElem? as bs ds i]
+
+theorem zip3_length {β γ δ : Type} : ∀ (l1 : List β) (l2 : List γ) (l3 : List δ),
+    (zip3 l1 l2 l3).length = min l1.length (min l2.length l3.length)
+  | [], l2, l3 => by simp [zip3]
+  | a :: as, [], l3 => by simp [zip3]
+  | a :: as, b :: bs, [] => by simp [zip3]
+  | a :: as, b :: bs, d :: ds => by simp [zip3, zip3_length as bs ds]
+
+/-- the fields of a recorded per-phase record that the mass balance writes and nothing later touches -/
+def balFields (yp : PSlice α) : α × List α := (yp.volFrac, yp.fconc)
+
+theorem nucPhase_bal (c : Cfg α) (s : St α) (t T x0 sites : α) (pc : PhaseCfg α) (an : PhaseAns α) (yp : PSlice α) :
+    balFields (nucPhase c s t T x0 sites pc an yp) = balFields yp := by
+  unfold nucPhase balFields clearNuc
+  simp only
+  split
+  · rfl
+  · split <;> rfl
+
+theorem nucleation_bal (c : Cfg α) (s : St α) (t : α) (x : List (List α)) (a : EvalAns α) (y : Slice α)
+    (h1 : c.phases.length = y.ph.length) (h2 : a.ph.length = y.ph.length) (h3 : s.ph.length = y.ph.length)
+    (h4 : x.length = y.ph.length) :
+    (nucleation c s t x a y).ph.map balFields = y.ph.map balFields := by
+  unfold nucleation
+  simp only
+  apply List.ext_getElem?
+  intro i
+  simp only [List.getElem?_map, List.getElem?_mapIdx, zip3_getElem?, dtPhases]
+  by_cases hi : i < y.ph.length
+  · have e1 : c.phases[i]? = some c.phases[i] := List.getElem?_eq_getElem (by omega)
+    have e2 : a.ph[i]? = some a.ph[i] := List.getElem?_eq_getElem (by omega)
+    have e3 : s.ph[i]? = some s.ph[i] := List.getElem?_eq_getElem (by omega)
+    have e4 : x[i]? = some x[i] := List.getElem?_eq_getElem (by omega)
+    have e5 : y.ph[i]? = some y.ph[i] := List.getElem?_eq_getElem hi
+    simp only [e1, e2, e3, e4, e5, Option.map_some, nucPhase_bal]
+    congr 1
+    unfold getPh
+    simp [List.getD_eq_getElem?_getD, e5]
+  · have e5 : y.ph[i]? = none := List.getElem?_eq_none (by omega)
+    have e1 : c.phases[i]? = none := List.getElem?_eq_none (by omega)
+    simp [e1, e5]
+
+theorem growthRate_bal (c : Cfg α) (s : St α) (a : EvalAns α) (y : Slice α)
+    (h2 : a.ph.length = y.ph.length) (h3 : s.ph.length = y.ph.length) :
+    (growthRate c s a y).2.ph.map balFields = y.ph.map balFields := by
+  unfold growthRate
+  split
+  · unfold growthBinary
+    simp only
+    apply List.ext_getElem?
+    intro i
+    simp only [List.getElem?_map, List.getElem?_mapIdx]
+    cases y.ph[i]? <;> simp [balFields]
+  · unfold growthMulti
+    simp only
+    apply List.ext_getElem?
+    intro i
+    simp only [List.getElem?_map, zip3_getElem?]
+    by_cases hi : i < y.ph.length
+    · have e2 : a.ph[i]? = some a.ph[i] := List.getElem?_eq_getElem (by omega)
+      have e3 : s.ph[i]? = some s.ph[i] := List.getElem?_eq_getElem (by omega)
+      have e5 : y.ph[i]? = some y.ph[i] := List.getElem?_eq_getElem hi
+      simp [e2, e3, e5, balFields]
+    · have e5 : y.ph[i]? = none := List.getElem?_eq_none (by omega)
+      simp [e5]
+
+theorem massBalance_bal (c : Cfg α) (s : St α) (x : List (List α)) (a : EvalAns α) (y : Slice α)
+    (h2 : a.ph.length = (massIns c s x).length) :
+    (KWNFull.massBalance c s x a y).ph.map balFields =
+      (MB.massBalance c.minDens c.minComp c.x0 y.comp (massIns c s x)).phases.map (fun o => (o.volFrac, o.fconc)) := by
+  unfold KWNFull.massBalance
+  simp only
+  have hl : (MB.massBalance c.minDens c.minComp c.x0 y.comp (massIns c s x)).phases.length = (massIns c s x).length := by
+    simp [MB.massBalance]
+  apply List.ext_getElem?
+  intro i
+  simp only [List.getElem?_map, List.getElem?_mapIdx, zip3_getElem?]
+  by_cases hi : i < (massIns c s x).length
+  · have e1 := List.getElem?_eq_getElem (l := (MB.massBalance c.minDens c.minComp c.x0 y.comp (massIns c s x)).phases) (i := i) (by omega)
+    have e2 : (massIns c s x)[i]? = some (massIns c s x)[i] := List.getElem?_eq_getElem hi
+    have e3 : a.ph[i]? = some a.ph[i] := List.getElem?_eq_getElem (by omega)
+    simp [e1, e2, e3, balFields]
+  · have e1 : (MB.massBalance c.minDens c.minComp c.x0 y.comp (massIns c s x)).phases[i]? = none :=
+      List.getElem?_eq_none (by omega)
+    simp [e1]
+
+theorem massIns_length (c : Cfg α) (s : St α) (x : List (List α)) :
+    (massIns c s x).length = min c.phases.length (min s.ph.length x.length) := by
+  simp [massIns, zip3_length]
+
+theorem massBalance_ph_length (c : Cfg α) (s : St α) (x : List (List α)) (a : EvalAns α) (y : Slice α) :
+    (KWNFull.massBalance c s x a y).ph.length = min (massIns c s x).length (min (massIns c s x).length a.ph.length) := by
+  simp [KWNFull.massBalance, zip3_length, MB.massBalance]
+
+/-- total precipitate fraction and precipitate solute content AS RECORDED in a row -/
+def rowVolFrac (y : Slice α) : α := (y.ph.map (·.volFrac)).sum
+def rowFconc (y : Slice α) (e : Nat) : α := (y.ph.map (fun p => p.fconc.getD e 0)).sum
+
+theorem sums_of_bal (l : List (PSlice α)) (m : List (MB.PhaseOut α)) (e : Nat)
+    (h : l.map balFields = m.map (fun o => (o.volFrac, o.fconc))) :
+    (l.map (·.volFrac)).sum = MB.sumVolFrac m ∧ (l.map (fun p => p.fconc.getD e 0)).sum = MB.sumFconc m e := by
+  have h1 := congrArg (List.map Prod.fst) h
+  have h2 := congrArg (List.map (fun q : α × List α => q.2.getD e 0)) h
+  simp only [List.map_map] at h1 h2
+  have e1 : (Prod.fst ∘ balFields : PSlice α → α) = (·.volFrac) := rfl
+  have e2 : (Prod.fst ∘ fun o : MB.PhaseOut α => (o.volFrac, o.fconc)) = (·.volFrac) := rfl
+  have e3 : ((fun q : α × List α => q.2.getD e 0) ∘ balFields : PSlice α → α) = (fun p => p.fconc.getD e 0) := rfl
+  have e4 : ((fun q : α × List α => q.2.getD e 0) ∘ fun o : MB.PhaseOut α => (o.volFrac, o.fconc)) = (fun p => p.fconc.getD e 0) := rfl
+  rw [e1, e2] at h1
+  rw [e3, e4] at h2
+  exact ⟨by rw [h1]; rfl, by rw [h2]; rfl⟩
+
+/-- the balance fields of an evaluated slice are those of the `MB.massBalance` call inside it, phase by phase -/
+theorem depEval_bal (c : Cfg α) (s : St α) (t : α) (x : List (List α)) (a : EvalAns α) (y : Slice α)
+    (hs : s.ph.length = c.phases.length) (hx : x.length = c.phases.length) (ha : a.ph.length = c.phases.length) :
+    (depEval c s t x a y).2.ph.map balFields =
+      (MB.massBalance c.minDens c.minComp c.x0 y.comp (massIns c s x)).phases.map (fun o => (o.volFrac, o.fconc)) := by
+  have hins : (massIns c s x).length = c.phases.length := by rw [massIns_length]; omega
+  unfold depEval
+  simp only
+  have hy1 : (KWNFull.massBalance c s x a { y with time := t, temp := a.T }).ph.length = c.phases.length := by
+    rw [massBalance_ph_length, hins]; omega
+  have hy2 : (nucleation c s t x a (KWNFull.massBalance c s x a { y with time := t, temp := a.T })).ph.length = c.phases.length := by
+    simp [nucleation, zip3_length, dtPhases]; omega
+  rw [growthRate_bal c s a _ (by omega) (by omega)]
+  rw [nucleation_bal c s t x a _ (by omega) (by omega) (by omega) (by omega)]
+  exact massBalance_bal c s x a _ (by omega)
+
+/-- **C01 on the row itself, for any evaluation**: whenever the recorded total fraction is below 1 and element e is not
+clamped, initial content = recorded matrix composition × (1 − recorded total fraction) + recorded precipitate content -/
+theorem depEval_conserves_row (c : Cfg α) (s : St α) (t : α) (x : List (List α)) (a : EvalAns α) (y : Slice α)
+    (hs : s.ph.length = c.phases.length) (hx : x.length = c.phases.length) (ha : a.ph.length = c.phases.length)
+    (e : Nat) (he : e < c.x0.length)
+    (hsat : rowVolFrac (depEval c s t x a y).2 < 1)
+    (hpos : ¬ (c.x0.getD e 0 - rowFconc (depEval c s t x a y).2 e) / (1 - rowVolFrac (depEval c s t x a y).2) < 0) :
+    c.x0.getD e 0 = (depEval c s t x a y).2.comp.getD e 0 * (1 - rowVolFrac (depEval c s t x a y).2)
+        + rowFconc (depEval c s t x a y).2 e := by
+  have hb := depEval_bal c s t x a y hs hx ha
+  obtain ⟨hv, hf⟩ := sums_of_bal _ _ e hb
+  have hcomp : (depEval c s t x a y).2.comp =
+      (MB.massBalance c.minDens c.minComp c.x0 y.comp (massIns c s x)).comp := by
+    unfold depEval
+    simp only
+    rw [(growthRate_time _ _ _ _).2.2]
+    rfl
+  unfold rowVolFrac rowFconc at *
+  rw [hv] at hsat hpos ⊢
+  rw [hf] at hpos ⊢
+  rw [hcomp]
+  exact C01.massBalance_conserves c.minDens c.minComp c.x0 y.comp _ e he hsat hpos
+
+/-- **C01 for the row recorded by an accepted Euler step of the composed model, every backend**: stated on the recorded
+fields (composition, per-phase volume fractions and precipitate contents of the new row) -/
+theorem eulerStep_conserves_row (c : Cfg α) (s : St α) (tf dtminS dtmaxS : α) (aPost : EvalAns α) (upd : List (UpdAns α))
+    (o : StepOut α) (h : eulerStep c s tf dtminS dtmaxS aPost upd = some o)
+    (hs : s.ph.length = c.phases.length) (hcur : (s.cur c.nElem).ph.length = c.phases.length)
+    (ha : aPost.ph.length = c.phases.length) (e : Nat) (he : e < c.x0.length)
+    (hsat : rowVolFrac (o.st.cur c.nElem) < 1)
+    (hpos : ¬ (c.x0.getD e 0 - rowFconc (o.st.cur c.nElem) e) / (1 - rowVolFrac (o.st.cur c.nElem)) < 0) :
+    c.x0.getD e 0 = (o.st.cur c.nElem).comp.getD e 0 * (1 - rowVolFrac (o.st.cur c.nElem)) + rowFconc (o.st.cur c.nElem) e := by
+  have hc : o.st.cur c.nElem = (evaluated c s tf dtminS dtmaxS aPost).2 := by
+    unfold eulerStep at h
+    simp only at h
+    split at h
+    · simp at h
+    · next sD hD =>
+      simp only [Option.some.injEq] at h
+      subst h
+      have hh := finishStep_hist _ _ _ _ _ _ hD
+      simp only [St.cur, hh, List.headD_cons]
+  rw [hc] at hsat hpos ⊢
+  unfold evaluated at hsat hpos ⊢
+  simp only at hsat hpos ⊢
+  refine depEval_conserves_row c s _ _ aPost _ hs ?_ ha e he hsat hpos
+  -- the processed new state has one distribution per phase
+  simp [processAll, advanced, stageX, entryX, zip3_length, hs, hcur]
+
+
 /-! ### non-vacuity
 
 `GridGood` is satisfiable (the grid a `PopulationBalanceModel` is constructed with).  The hypothesis `… = some o` of the step
